@@ -127,7 +127,7 @@ def run_shard(ctx):
         ctx.stats.extra['shim_selftest'] = {k: v for k, v in result.items() if k != 'why'}
         if result['status'] == 'mismatch':
             raise HarnessError(f'the library performs I/O on the container that the shim does not see: {result}')
-    explore(ctx, cr.strategy(), run_one, 60 if quick else 1500)
+    explore(ctx, cr.strategy(), run_one, 60 if quick else 8000)
     # `explore` counts one evaluation per pair on top of the kill points: keep only kill points in `evaluations`
     ctx.stats.extra['pairs'] = ctx.stats.hist.get('pair-exhaustive', 0)
     ctx.stats.extra['every_event_of_every_pair_used'] = True
